@@ -275,7 +275,12 @@ func (w *c09world) sendReply(in *c09inst, slot int, isErr bool) (tok string, hit
 	}
 	tok = w.token()
 	if isErr {
-		w.rig.Send(fmt.Sprintf(`{"jsonrpc":"2.0","id":%s,"error":{"code":-5,"message":%q}}`, id, tok))
+		if len(tok)%2 == 0 {
+			// a failure reply spelt the way JSON-RPC 1.0 peers do, with an explicit null result
+			w.rig.Send(fmt.Sprintf(`{"jsonrpc":"2.0","id":%s,"result":null,"error":{"code":-5,"message":%q}}`, id, tok))
+		} else {
+			w.rig.Send(fmt.Sprintf(`{"jsonrpc":"2.0","id":%s,"error":{"code":-5,"message":%q}}`, id, tok))
+		}
 	} else {
 		w.rig.Send(fmt.Sprintf(`{"jsonrpc":"2.0","id":%s,"result":%q}`, id, tok))
 	}
@@ -395,10 +400,10 @@ func (w *c09world) apply(op c09op) {
 		}
 	case "respell":
 		// a reply whose id denotes the same number as an outstanding callback's id in another
-		// spelling (1.0, 1e0): ids are compared as texts, it bears no outstanding id and
+		// spelling (1.0, 1e0) or as a JSON string ("1"): ids are compared as texts, it bears no outstanding id and
 		// completes nothing
 		if in := w.slots[op.slot]; in != nil && in.wireID != "" {
-			rig.Send(fmt.Sprintf(`[{"jsonrpc":"2.0","id":%s.0,"result":%q},{"jsonrpc":"2.0","id":%se0,"error":{"code":-5,"message":"x"}}]`, in.wireID, w.token(), in.wireID))
+			rig.Send(fmt.Sprintf(`[{"jsonrpc":"2.0","id":%s.0,"result":%q},{"jsonrpc":"2.0","id":%se0,"error":{"code":-5,"message":"x"}},{"jsonrpc":"2.0","id":"%s","result":%q}]`, in.wireID, w.token(), in.wireID, in.wireID, w.token()))
 		}
 	case "replyall":
 		// one batch record answering every outstanding callback, replies side by side, with
@@ -447,8 +452,20 @@ func (w *c09world) apply(op c09op) {
 	case "race": // reply and cancel race
 		in := w.slots[op.slot]
 		tok, hit := w.sendReply(in, op.slot, false)
+		delivered := false
 		if w.rig.Ctrl.HasDelays() {
 			w.rig.Ctrl.Quiesce()
+			// If the server has already matched the reply to the callback (its id is no longer
+			// outstanding, though Callback's goroutine may still be parked on its way out), the
+			// reply came first: the cancellation that follows cannot change what Callback reports.
+			if hit && !w.stopped {
+				delivered = true
+				for _, id := range w.rig.Srv.VerifSnapshot().Callbacks {
+					if id == in.wireID {
+						delivered = false
+					}
+				}
+			}
 		}
 		canCancel := in != nil && in.cancel != nil
 		if canCancel {
@@ -459,8 +476,11 @@ func (w *c09world) apply(op c09op) {
 			if hit {
 				in.outcome = append(in.outcome, "ok:"+tok)
 			}
-			if canCancel {
+			if canCancel && !delivered {
 				in.outcome = append(in.outcome, "ctx:canceled")
+			}
+			if delivered {
+				w.c.Count("races_decided_by_delivery_before_cancel", 1)
 			}
 		}
 	case "racestop": // reply and Stop race
